@@ -79,7 +79,7 @@ func (v *VerifDownTrack) SetLimitSid(limitSid bool) {
 	if limitSid {
 		layer.wantedSid = 0
 	}
-	v.t.setLayerInfo(layer)
+	v.t.updateWantedLayers(layer)
 }
 
 // Trace points of the receive loop and of the NACK writer.
